@@ -19,4 +19,23 @@ type knownMatcher struct {
 	match func(sim string, c interface{}, v *Violation) bool
 }
 
-var knownMatchers []knownMatcher
+var knownMatchers = []knownMatcher{
+	{
+		// F1: Sync under an injected write failure returns nil (the error of
+		// pwritev is dropped inside the filebuffer dependency). Identified by
+		// the oracle that only this fault scenario evaluates and by the fault
+		// being part of the failing history.
+		name: "C05-sync-drops-write-error",
+		prop: "C05",
+		match: func(sim string, c interface{}, v *Violation) bool {
+			lc, ok := c.(*LibCase)
+			if !ok || v == nil || v.Oracle != "C05.sync-success-after-failed-write" {
+				return false
+			}
+			if v.AtOp < 0 || v.AtOp >= len(lc.Ops) {
+				return false
+			}
+			return lc.Ops[v.AtOp].Op == "sync" && lc.Ops[v.AtOp].FailAt > 0
+		},
+	},
+}
